@@ -120,7 +120,18 @@ def gen_cases(ctx):
                     if w["layers"][b_]["kind"] != "unit" and w["layers"][b_] is not l_:
                         w["layers"][b_]["setUp"] = w["layers"][b_]["tearDown"] = True
                         w["layers"][b_]["setUpRaises"] = []
-        if rng.random() < 0.3:
+        if i % 4 == 3:
+            # among the layers left over when the run stops, one whose tearDown raises (an ordinary exception) with its
+            # base layers still waiting behind it: they are torn down all the same
+            cand = [l for l in w["layers"] if l["kind"] != "unit" and l["bases"]]
+            for l_ in cand:
+                l_["setUp"] = l_["tearDown"] = True
+                l_["tearDownFaults"] = [[999999, 1]]
+                for b_ in worlds.closure(w["layers"], w["layers"].index(l_)):
+                    if w["layers"][b_]["kind"] != "unit" and w["layers"][b_] is not l_:
+                        w["layers"][b_]["setUp"] = w["layers"][b_]["tearDown"] = True
+                        w["layers"][b_]["setUpRaises"] = []
+        elif rng.random() < 0.3:
             for l in w["layers"]:
                 if l["kind"] != "unit" and l["tearDown"] and rng.random() < 0.5:
                     l["tearDownFaults"] = [[0, 2]]
